@@ -366,6 +366,93 @@ def r4(ctx):
               "additions appended with initiator, constants with _sa_initiator=False", b.loc)
 
 
+
+# -------------------------------------------------------------------------------------- C37-R5
+def _self_key(node) -> bool:
+    return isinstance(node, ast.Attribute) and dotted(node) == "self.key"
+
+
+def _storage_mutations(fn):
+    """Statements of an impl method that change the attribute's OWN storage: `dict_[self.key] = v`, `del dict_[self.key]`,
+    `<dict>.pop(self.key ..)`, `state._get_pending_mutation(self.key).append/remove(..)`."""
+    out = []
+    for n in walk_local(fn):
+        if isinstance(n, ast.Assign) and any(isinstance(t, ast.Subscript) and _self_key(t.slice) for t in n.targets):
+            out.append((n, "store"))
+        elif isinstance(n, ast.Delete) and any(isinstance(t, ast.Subscript) and _self_key(t.slice) for t in n.targets):
+            out.append((n, "del"))
+        elif isinstance(n, ast.Call) and isinstance(n.func, ast.Attribute):
+            if n.func.attr == "pop" and n.args and _self_key(n.args[0]) and isinstance(n.func.value, ast.Name):
+                out.append((n, "pop"))
+            elif n.func.attr in ("append", "remove") and isinstance(n.func.value, ast.Call) \
+                    and (call_name(n.func.value) or "").endswith("_get_pending_mutation") and n.func.value.args and _self_key(n.func.value.args[0]):
+                out.append((n, "pending-" + n.func.attr))
+    return out
+
+
+def _direct_events(fn, wanted):
+    """before-mutation events this function delivers itself: `self.dispatch.<evt>(..)` or `for fn in self.dispatch.<evt>`"""
+    out = {}
+    for n in walk_local(fn):
+        tgt = None
+        if isinstance(n, ast.Call):
+            tgt = n.func
+        elif isinstance(n, ast.For):
+            tgt = n.iter
+        if isinstance(tgt, ast.Attribute) and dotted(tgt.value) == "self.dispatch" and tgt.attr in wanted:
+            out.setdefault(tgt.attr, []).append(n)
+    return out
+
+
+@R.rule("C37-R5", floor=6, template="T-PATH",
+        desc="every attribute impl mutator (set/delete/append/remove of the scalar, scalar-object and collection impls) "
+             "delivers its before-mutation event (set/append/remove/bulk_replace: validators and the backref handlers "
+             "run here and may raise) BEFORE it changes its own storage: no path leads from the storage change to "
+             "the event, so a rejected operation leaves this side untouched and in agreement with the other")
+def r5(ctx):
+    from ..oracles import load
+    phase = load("attribute_event_phase.json")
+    wanted = set(phase["before_mutation"])
+    ix = ctx.index
+    base = ix.cls(f"{ATTR}::_AttributeImpl")
+    classes = [c for c in ix.subclasses(base) if c.module.relpath == ATTR]
+    ctx.require(len(classes) >= 3, f"{ATTR}: attribute impl classes not found")
+    n_inst = 0
+    for c in classes:
+        for mname, m in sorted(c.methods.items()):
+            if m.type_only or m.is_overload:
+                continue
+            muts = _storage_mutations(m.node)
+            if not muts:
+                continue
+            # event deliveries: direct ones and calls of self.<helper>() whose body delivers a before-mutation event
+            fires = []
+            for evt, nodes in _direct_events(m.node, wanted).items():
+                fires.extend((n, evt) for n in nodes)
+            for call in calls_in(m.node):
+                if isinstance(call.func, ast.Attribute) and isinstance(call.func.value, ast.Name) and call.func.value.id == "self":
+                    h = ix.resolve_method(c, call.func.attr)
+                    if h is not None and h.node is not m.node:
+                        ev = _direct_events(h.node, wanted)
+                        for evt in ev:
+                            fires.append((call, evt))
+            if not fires:
+                continue
+            g = ctx.cfg(m)
+            mut_nodes = sorted({i for n, _ in muts for i in g.nodes_containing(n)} | {i for n, _ in muts if isinstance(n, ast.stmt) for i in g.nodes_for(n)})
+            fire_nodes = sorted({i for n, _ in fires for i in (g.nodes_for(n) if isinstance(n, ast.stmt) else g.nodes_containing(n))})
+            ctx.require(mut_nodes and fire_nodes, f"{m.key}: cannot locate storage change / event delivery in the CFG")
+            w = g.witness(mut_nodes, fire_nodes, edge_ok=no_exc)
+            evs = sorted({e for _, e in fires})
+            kinds = sorted({k for _, k in muts})
+            n_inst += 1
+            ctx.check(w is None, f"{m.key}:event-before-storage",
+                      f"the {'/'.join(evs)} event (validators, backref handlers; may raise) can be delivered AFTER the impl has already changed its own storage "
+                      f"({'/'.join(kinds)} of dict_[self.key]): a listener that rejects the operation leaves this side changed while no "
+                      f"backref has run - the two sides disagree",
+                      f"{'/'.join(evs)} delivered before {'/'.join(kinds)}", m.loc, g.describe_path(w) if w else None)
+
+
 # -------------------------------------------------------------------------------------- self-test
 R.mutant("set-pops-from-new-child", ATTR,
          sub("            old_state, old_dict = (\n                instance_state(oldchild),\n                instance_dict(oldchild),\n            )\n",
